@@ -267,9 +267,19 @@ var _ uuid.UUID
 
 // ---------------------------------------------------------------------------------------------
 // Notificator.Notify: the channel hand-over itself is C11's subject; here only "touches nothing the index or partition owns".
+// C11 ("delivers its outcome to its own waiting caller and to no one else"): Notify sends at most one message, the value it was
+// given, and only on the channel registered under the id it was given; success means the message was handed over
 //@ func (*utils.Notificator).Notify
 //@ props C02 C04 C11 C14
-//@ assume
+//@ ghost sends int = 0
+//@ at send *
+//@ requires [C11 only-to-the-registered-channel] has(this.chans, id) && $chan == this.chans[id] && $val == v
+//@ set sends = sends + 1
+//@ end
+//@ noclose *
+//@ ensures [C11 at-most-one-message] sends <= 1
+//@ ensures [C11 success-means-sent] isnil(ret) ==> sends == 1
+//@ ensures [C11 unknown-id] !old(has(this.chans, id)) ==> ret == ErrNotificatorChannelDoesNotExist && sends == 0
 //@ modifies nothing
 
 // C11 (delivery whatever the timing): the applier notifies with a non-blocking send, and the proposer is not yet receiving
